@@ -6,8 +6,12 @@ lean/PedalModel/Gen/TifaTables.lean:
     `generic_visit` fallback exists
   * nodeClasses : every concrete AST node class of the running interpreter's `ast` module
   * builtinRows : every FunctionType in BUILTIN_NAMES, in the documented type classes' `fields`
-    (str/list/dict/int/float/bool/num/set/tuple/file methods) and in the builtin modules, with HOW its
-    definition was given to FunctionType.__init__ (a `definition` object, or derived from `returns`).
+    (str/list/dict/int/float/bool/num/set/tuple/file methods) and in the builtin modules that are STANDARD
+    modules of the running Python (sys.stdlib_module_names), with HOW its definition was given to
+    FunctionType.__init__ (a `definition` object, or derived from `returns`).
+  * extensionRows : the same for the third-party modules pedal also describes (designer, drafter, PIL, ...).
+    C18's "completes" clause speaks of "imports of standard modules", so these rows are outside the property:
+    they are generated and reported, but no theorem gates on them.
 
 Anything not understood becomes `.other` (never dropped) so that the table theorem fails for it.
 """
@@ -93,7 +97,18 @@ def row_of(table, name, f):
     return (table, name, given, classify_ret(r), detail)
 
 
+def is_standard_module(mod):
+    """'imports of standard modules' (property text): the top-level package ships with the running Python."""
+    import sys
+    return mod.split(".")[0] in sys.stdlib_module_names
+
+
+def in_scope(table):
+    return not table.startswith("extmodule:")
+
+
 def builtin_rows():
+    """Every row, in-scope and extension (table prefix `extmodule:`)."""
     from pedal.types import new_types as nt
     import pedal.types.builtin as bi
     nt.reset_builtin_modules()
@@ -108,10 +123,12 @@ def builtin_rows():
             if isinstance(f, nt.FunctionType):
                 rows.append(row_of(cls, name, f))
     for mod, m in sorted(nt.BUILTIN_MODULES.items()):
+        kind = "module:" if is_standard_module(mod) else "extmodule:"
+
         def walk(prefix, module):
             for name, f in module.fields.items():
                 if isinstance(f, nt.FunctionType):
-                    rows.append(row_of("module:" + prefix, name, f))
+                    rows.append(row_of(kind + prefix, name, f))
             for sub, sm in getattr(module, "submodules", {}).items():
                 walk(prefix + "." + sub, sm)
         walk(mod, m)
@@ -140,8 +157,14 @@ def translate():
     L.append(",\n".join("  (%s, %s)" % (lean_str(n), lean_str(g)) for n, g in nodes))
     L.append("]")
     L.append("")
+    L.append("/-- builtins, methods of the builtin types, functions of STANDARD modules: the property's subset -/")
     L.append("def builtinRows : List Row := [")
-    L.append(",\n".join("  ⟨%s, %s, %s, %s⟩" % (lean_str(t), lean_str(n), d, r) for t, n, d, r, det in rows))
+    L.append(",\n".join("  ⟨%s, %s, %s, %s⟩" % (lean_str(t), lean_str(n), d, r) for t, n, d, r, det in rows if in_scope(t)))
+    L.append("]")
+    L.append("")
+    L.append("/-- functions of third-party modules pedal describes: outside the property (reported, not gated) -/")
+    L.append("def extensionRows : List Row := [")
+    L.append(",\n".join("  ⟨%s, %s, %s, %s⟩" % (lean_str(t), lean_str(n), d, r) for t, n, d, r, det in rows if not in_scope(t)))
     L.append("]")
     L.append("")
     L.append("end Pedal.Gen.Tifa")
@@ -150,8 +173,10 @@ def translate():
     bad = [(t, n, d, r, det) for t, n, d, r, det in rows
            if not (d == ".callable" or (d == ".none" and r in (".none", ".void", ".identity", ".element", ".callable0")))]
     generic_nodes = [n for n, g in nodes if "visit_" + n not in methods]
-    return {"changed": changed, "visit_methods": len(methods), "node_classes": len(nodes), "rows": len(rows),
-            "rows_not_callable": [list(b) for b in bad],
+    return {"changed": changed, "visit_methods": len(methods), "node_classes": len(nodes),
+            "rows": len([r for r in rows if in_scope(r[0])]), "extension_rows": len([r for r in rows if not in_scope(r[0])]),
+            "rows_not_callable": [list(b) for b in bad if in_scope(b[0])],
+            "extension_rows_not_callable (outside the property: not a standard module)": [list(b) for b in bad if not in_scope(b[0])],
             "stmt_expr_classes_on_generic_visit": [n for n, g in nodes if g in ("stmt", "expr") and n in generic_nodes]}
 
 
